@@ -8,6 +8,9 @@
 (*   notify/webhook         truncateAlerts, Message.TruncatedAlerts        *)
 (*   notify/retry_stage.go  resolved alerts dropped without send_resolved  *)
 (*                                                                         *)
+(* (The retry contract of one real notifier behind the retry stage - per   *)
+(* attempt outcome, own timeout, flush deadline - is DeliveryRetry.tla.)   *)
+(*                                                                         *)
 (* Everything here is a function of its arguments (no state); for each     *)
 (* summary there is the REFERENCE definition (the statement of C20) and    *)
 (* the IMPLEMENTATION-shaped definition (the algorithm of the code, kept   *)
